@@ -15,7 +15,7 @@ import (
 
 func profiles() map[string]Profile {
 	base := Profile{Ops: 60, Set: 30, Del: 10, Get: 8, GetI: 5, Exist: 3, Min: 3, Max: 3, Totals: 4, Names: 1,
-		Flush: 6, Evict: 6, Reopen: 4, Malformed: 3, Dump: 2, MaxColls: 3, MemOnly: 25, Drop: 30}
+		Flush: 6, Evict: 6, Reopen: 4, Malformed: 3, Dump: 2, MaxColls: 3, MemOnly: 25, Drop: 30, Len: 2}
 	m := map[string]Profile{}
 	p := base
 	p.Name = "C01"
@@ -31,7 +31,7 @@ func profiles() map[string]Profile {
 	p = base
 	p.Name = "C04"
 	p.MemOnly = 20
-	p.Snap, p.SnapClose, p.Dump, p.SetColl, p.RmColl, p.Visit = 8, 5, 10, 3, 2, 4
+	p.Snap, p.SnapClose, p.Dump, p.SetColl, p.RmColl, p.Visit, p.SnapRevert, p.Write, p.Image = 8, 5, 10, 3, 2, 4, 3, 2, 3
 	m["C04"] = p
 
 	p = base
@@ -42,8 +42,13 @@ func profiles() map[string]Profile {
 	p = base
 	p.Name = "C08"
 	p.MemOnly = 5
-	p.Flush, p.Revert, p.Reopen, p.Dump, p.Image, p.SetColl, p.RmColl = 12, 8, 5, 5, 5, 2, 2
+	p.Flush, p.Revert, p.Reopen, p.Dump, p.Image, p.SetColl, p.RmColl, p.Write, p.Snap, p.SnapRevert = 12, 8, 5, 5, 5, 2, 2, 1, 2, 2
 	m["C08"] = p
+
+	p = base
+	p.Name = "C13any" // aggregates and search order also under lower-priority overwrites
+	p.Shape, p.Set, p.Del = 10, 40, 12
+	m["C13any"] = p
 
 	p = base
 	p.Name = "C09"
@@ -96,7 +101,7 @@ func profiles() map[string]Profile {
 	p = base
 	p.Name = "C09"
 	p.MemOnly = 0
-	p.Flush, p.Revert, p.Reopen, p.Snap, p.SnapClose, p.Visit, p.Copy = 10, 3, 5, 3, 2, 5, 2
+	p.Flush, p.Revert, p.Reopen, p.Snap, p.SnapClose, p.Visit, p.Copy, p.Write, p.SnapRevert = 10, 3, 5, 3, 2, 5, 2, 2, 2
 	p.FlushExtra = []string{"wlog %F"}
 	p.EndExtra = []string{"wlog %F", "appendcheck %F"}
 	m["C09"] = p
